@@ -69,6 +69,20 @@ type held struct {
 	id    string
 	owner *aobj
 	mode  byte // 'W' or 'R'
+	// once: a sync.Once seen as a lock - the function passed to Do runs holding it in mode W, everything after a Do call
+	// on this path holds it in mode R for good (Do returns only after the one execution of the function has completed and
+	// the function never runs again): sticky entries are not "locks still held" at a return
+	once bool
+}
+
+func realHeld(h []held) []held {
+	var r []held
+	for _, x := range h {
+		if !x.once {
+			r = append(r, x)
+		}
+	}
+	return r
 }
 
 // cacheWrite: a store through an object handed out by an informer cache
@@ -498,7 +512,7 @@ func (w *walker) lockOp(id string, owner *aobj, op string, pos token.Pos) {
 		if op == "RLock" {
 			m = 'R'
 		}
-		w.held = append(w.held, held{id, owner, m})
+		w.held = append(w.held, held{id, owner, m, false})
 	case "Unlock", "RUnlock":
 		m := byte('W')
 		if op == "RUnlock" {
@@ -513,6 +527,33 @@ func (w *walker) lockOp(id string, owner *aobj, op string, pos token.Pos) {
 		}
 		w.diag(pos, "%s of %s which is not held in that mode here", op, id)
 	}
+}
+
+// isOnceDo recognises X.f.Do(fn) where f is a sync.Once field of a named struct: id "Struct.f", owner X
+func (w *walker) isOnceDo(c *ast.CallExpr) (id string, ownerExpr ast.Expr, ok bool) {
+	se, isSel := c.Fun.(*ast.SelectorExpr)
+	if !isSel || len(c.Args) != 1 {
+		return
+	}
+	sel := w.pkg.TypesInfo.Selections[se]
+	if sel == nil || sel.Kind() != types.MethodVal {
+		return
+	}
+	fn, isFn := sel.Obj().(*types.Func)
+	if !isFn || fn.FullName() != "(*sync.Once).Do" {
+		return
+	}
+	if x, isX := ast.Unparen(se.X).(*ast.SelectorExpr); isX {
+		if fs := w.pkg.TypesInfo.Selections[x]; fs != nil && fs.Kind() == types.FieldVal {
+			t := fs.Recv()
+			idx := fs.Index()
+			for i := 0; i < len(idx)-1; i++ {
+				t = deref(t).Underlying().(*types.Struct).Field(idx[i]).Type()
+			}
+			return namedName(t) + "." + x.Sel.Name, x.X, true
+		}
+	}
+	return
 }
 
 // isLockCall recognises X.Lock()/Unlock()/RLock()/RUnlock() on sync.Mutex / sync.RWMutex
@@ -923,6 +964,38 @@ func (w *walker) call(c *ast.CallExpr) []aval {
 			return []aval{w.builtin(id.Name, c)}
 		}
 	}
+	// sync.Once: X.f.Do(func)
+	if id, ownerExpr, ok := w.isOnceDo(c); ok {
+		var owner *aobj
+		if ov := w.eval(ownerExpr); len(ov) > 0 {
+			owner = ov[0]
+		}
+		done := false
+		for _, h := range w.held {
+			if h.once && h.id == id && h.owner == owner {
+				done = true
+			}
+		}
+		arg := w.loadValue(c.Args[0])
+		if !done {
+			w.held = append(w.held, held{id, owner, 'W', true})
+			for _, o := range arg {
+				if o.fn != nil {
+					w.inline(fmt.Sprintf("func@%s", w.position(o.fn.lit.Pos())), o.fn.pkg, nil, o.fn.lit.Type, o.fn.lit.Body, nil, nil, c)
+				} else if o.decl != nil {
+					w.inline(o.decl.key, o.decl.pkg, o.decl.decl.Recv, o.decl.decl.Type, o.decl.decl.Body, o.recv, nil, c)
+				}
+			}
+			for i := len(w.held) - 1; i >= 0; i-- {
+				if w.held[i].once && w.held[i].id == id && w.held[i].owner == owner && w.held[i].mode == 'W' {
+					w.held = append(copyHeld(w.held[:i]), w.held[i+1:]...)
+					break
+				}
+			}
+			w.held = append(w.held, held{id, owner, 'R', true})
+		}
+		return nil
+	}
 	// lock operations
 	if id, ownerExpr, op, ok := w.isLockCall(c); ok {
 		var owner *aobj
@@ -1253,8 +1326,10 @@ func (w *walker) inline(key string, pkg *packages.Package, recvList *ast.FieldLi
 		// falling off the end: deferred calls run now
 		w.collectNamed(fr)
 		w.runDefers(fr)
-		if fr.hasExit && !sameHeld(fr.exitHeld, w.held) {
+		if fr.hasExit && !sameHeld(realHeld(fr.exitHeld), realHeld(w.held)) {
 			w.diag(body.Rbrace, "%s returns holding %s on one path and %s on another", key, heldString(fr.exitHeld), heldString(w.held))
+			w.held = meetHeld(fr.exitHeld, w.held)
+		} else if fr.hasExit {
 			w.held = meetHeld(fr.exitHeld, w.held)
 		}
 	} else if fr.hasExit {
@@ -1320,9 +1395,11 @@ func (w *walker) merge(pos token.Pos, saved []held, bs []branch) bool {
 	}
 	h := live[0]
 	for _, o := range live[1:] {
-		if !sameHeld(h, o) {
+		if !sameHeld(realHeld(h), realHeld(o)) {
 			w.diag(pos, "lock state differs between branches: %s vs %s", heldString(h), heldString(o))
-			h = meetHeld(h, o)
+		}
+		if !sameHeld(h, o) {
+			h = meetHeld(h, o) // (a Once done on one branch only is not done afterwards)
 		}
 	}
 	w.held = h
@@ -1427,8 +1504,10 @@ func (w *walker) stmt(s ast.Stmt) bool {
 		if len(x.Results) == 0 {
 			w.collectNamed(fr)
 		}
-		if fr.hasExit && !sameHeld(fr.exitHeld, w.held) {
+		if fr.hasExit && !sameHeld(realHeld(fr.exitHeld), realHeld(w.held)) {
 			w.diag(x.Pos(), "%s returns holding %s here but %s at an earlier return", fr.name, heldString(w.held), heldString(fr.exitHeld))
+			fr.exitHeld = meetHeld(fr.exitHeld, w.held)
+		} else if fr.hasExit {
 			fr.exitHeld = meetHeld(fr.exitHeld, w.held)
 		} else if !fr.hasExit {
 			fr.exitHeld = copyHeld(w.held)
@@ -1467,7 +1546,7 @@ func (w *walker) stmt(s ast.Stmt) bool {
 			t := w.block(x.Body.List)
 			if !t {
 				w.stmt(x.Post)
-				if !sameHeld(saved, w.held) {
+				if !sameHeld(realHeld(saved), realHeld(w.held)) {
 					w.diag(x.Pos(), "loop body changes the lock state: %s -> %s", heldString(saved), heldString(w.held))
 				}
 			}
@@ -1516,7 +1595,7 @@ func (w *walker) stmt(s ast.Stmt) bool {
 				}
 			}
 			t := w.block(x.Body.List)
-			if !t && !sameHeld(saved, w.held) {
+			if !t && !sameHeld(realHeld(saved), realHeld(w.held)) {
 				w.diag(x.Pos(), "loop body changes the lock state: %s -> %s", heldString(saved), heldString(w.held))
 			}
 		}
